@@ -40,13 +40,18 @@ func (s *scanner) Scan(value bytes.Bytes) (*Number, error) {
 		return nil, err
 	}
 
+	nat, err := s.getNatural(value)
+	if err != nil {
+		return nil, err
+	}
+
 	n := Number{
 		neg: s.negative,
-		nat: s.getNatural(value),
+		nat: nat,
 		exp: s.fraLen,
 	}
 
-	err := n.trimLeadingZerosInTheIntegerPart()
+	err = n.trimLeadingZerosInTheIntegerPart()
 	if err != nil {
 		return nil, err
 	}
@@ -79,27 +84,41 @@ func (s *scanner) setExp(value bytes.Bytes) error {
 	return nil
 }
 
-func (s *scanner) getNatural(value bytes.Bytes) bytes.Bytes {
+// maxNaturalLen the longest string of digits a number is written out to. The
+// digits are kept as they are, the exponent becomes zeros: without a limit a
+// few bytes ("1e4000000000") ask for gigabytes.
+const maxNaturalLen = 1 << 24
+
+func (s *scanner) getNatural(value bytes.Bytes) (bytes.Bytes, error) {
 	var natural bytes.Bytes
 
 	switch {
 	case s.intLen < 0: // example 1.2E-2 = .012
+		if s.fraLen < 0 || s.fraLen > maxNaturalLen {
+			return natural, errs.ErrIncorrectExponentValue.F()
+		}
 		natural = bytes.MakeBytes(s.fraLen)
 		natural = appendZeros(natural, -s.intLen)
 		natural = appendDigits(value, natural)
 
 	case s.fraLen < 0: // example 1.2E+2 = 120
+		if s.intLen > maxNaturalLen {
+			return natural, errs.ErrIncorrectExponentValue.F()
+		}
 		natural = bytes.MakeBytes(s.intLen)
 		natural = appendDigits(value, natural)
 		natural = appendZeros(natural, -s.fraLen)
 		s.fraLen = 0
 
 	default: // example 12.3E-1 = 1.23
+		if s.intLen+s.fraLen < 0 || s.intLen+s.fraLen > maxNaturalLen {
+			return natural, errs.ErrIncorrectExponentValue.F()
+		}
 		natural = bytes.MakeBytes(s.intLen + s.fraLen)
 		natural = appendDigits(value, natural)
 	}
 
-	return natural
+	return natural, nil
 }
 
 func (s *scanner) stateOnSearchStart(c byte) bool {
